@@ -6,21 +6,25 @@ Layer 1: every parser step acts on the table `T st : Name → Option FV` as the 
 Layer 2 (Props/C15.lean uses it): closed form of folding `stepT` over the declarations.
 -/
 import ChibiVerif.Lemmas.LinkageParse
+import ChibiVerif.Lemmas.LinkageEmit
 import ChibiVerif.Spec.LinkageSpec
 
 namespace ChibiVerif.Linkage
 open ChibiVerif.Spec.Linkage (initFnRefs bodyFnRefs)
 
+variable [Rules]
+
 /-- the fields of a function object the liveness logic reads -/
 structure FV where
   isStatic : Bool
   isInline : Bool
+  isInlineDef : Bool
   isRoot : Bool
   isDefinition : Bool
   refs : List Name
   deriving DecidableEq, Repr
 
-def fview (o : Obj) : FV := ⟨o.isStatic, o.isInline, o.isRoot, o.isDefinition, o.refs⟩
+def fview (o : Obj) : FV := ⟨o.isStatic, o.isInline, o.isInlineDef, o.isRoot, o.isDefinition, o.refs⟩
 
 /-- the function table of a parser state, through `find_func` -/
 def T (gs : List Obj) : Name → Option FV := fun f => (findFunc gs f).map fview
@@ -88,7 +92,16 @@ theorem updT_updT (t : Name → Option FV) (f : Name) (u1 u2 : FV → FV) :
 
 def addRefs (l : List Name) : FV → FV := fun v => { v with refs := v.refs ++ l }
 def setRoot : FV → FV := fun v => { v with isRoot := true }
-def rootIf : FV → FV := fun v => if !(v.isStatic && v.isInline) then { v with isRoot := true } else v
+def rootIf : FV → FV := fun v =>
+  if Rules.flagsFollow then v else (if !(v.isStatic && v.isInline) then { v with isRoot := true } else v)
+/-- `redeclFlags` on the view -/
+def redeclV (isExtern isInline : Bool) : FV → FV := fun v =>
+  if Rules.flagsFollow then
+    let v1 : FV := if v.isInlineDef && (!isInline || isExtern) then { v with isInlineDef := false, isStatic := false } else v
+    if v1.isStatic && !v1.isInlineDef && isInline && !v1.isDefinition then { v1 with isInline := true } else v1
+  else v
+/-- the view of a function object `function()` creates -/
+def newFV (s e i b : Bool) : FV := ⟨s || (i && !e), i, Rules.flagsFollow && i && !s && !e, false, b, []⟩
 def orDef (b : Bool) : FV → FV := fun v => { v with isDefinition := v.isDefinition || b }
 
 /-- mark every function named in `l` as a root -/
@@ -107,8 +120,8 @@ theorem addRefs_addRefs (a b : List Name) : (fun v => addRefs b (addRefs a v)) =
 
 /-! ### the parser's steps -/
 
-theorem T_newAnon (st : PState) (ty : ObjTy) (hi : Bool) (uses : List Sym) :
-    T (newAnon st ty hi uses).1.globals = T st.globals :=
+theorem T_newAnon (cur : Option Name) (st : PState) (ty : ObjTy) (hi : Bool) (uses : List Sym) :
+    T (newAnon cur st ty hi uses).1.globals = T st.globals :=
   T_cons_data rfl _
 
 theorem T_recordFnRef_some {f : Name} {st st' : PState} {g : Name} (h : recordFnRef (some f) st g = .ok st') :
@@ -183,7 +196,7 @@ theorem T_initItems_some {f : Name} : ∀ (items : List InitItem) {st st' : PSta
       · rename_i p2 h2
         simp only [pure, Except.pure, Except.ok.injEq, Prod.mk.injEq] at h
         rw [← h.1]
-        have ih' := ih (st := (newAnon st (strTy n) true).1) (st' := p2.1) (ss := p2.2) (by simpa using h2)
+        have ih' := ih (st := (newAnon _ st (strTy n) true).1) (st' := p2.1) (ss := p2.2) (by simpa using h2)
         rw [ih', T_newAnon]
         simp [initFnRefs]
 
@@ -251,7 +264,7 @@ theorem T_initItems_none : ∀ (items : List InitItem) {st st' : PState} {ss : L
       · rename_i p2 h2
         simp only [pure, Except.pure, Except.ok.injEq, Prod.mk.injEq] at h
         rw [← h.1]
-        have ih' := ih (st := (newAnon st (strTy n) true).1) (st' := p2.1) (ss := p2.2) (by simpa using h2)
+        have ih' := ih (st := (newAnon _ st (strTy n) true).1) (st' := p2.1) (ss := p2.2) (by simpa using h2)
         rw [ih', T_newAnon]
         simp [initFnRefs]
 
@@ -357,8 +370,8 @@ theorem T_bodyItems {f : Name} : ∀ (items : List BodyItem) {st st' : PState} {
 def stepT (t : Name → Option FV) : Decl → (Name → Option FV)
   | .func f _ s e i body =>
     let t1 : Name → Option FV := match t f with
-      | some _ => updT t f (orDef body.isSome)
-      | none => fun g => if g = f then some ⟨s || (i && !e), i, false, body.isSome, []⟩ else t g
+      | some _ => updT t f (fun v => orDef body.isSome (redeclV e i v))
+      | none => fun g => if g = f then some (newFV s e i body.isSome) else t g
     let t2 := updT t1 f rootIf
     match body with
     | none => t2
@@ -368,12 +381,36 @@ def stepT (t : Name → Option FV) : Decl → (Name → Option FV)
     | none => t
     | some items => rootAll t (initFnRefs items)
 
-theorem fview_rootIf (o : Obj) :
-    fview (if !(o.isStatic && o.isInline) then { o with isRoot := true } else o) = rootIf (fview o) := by
-  unfold rootIf fview
-  by_cases h : (!(o.isStatic && o.isInline)) = true
-  · simp only [h, if_true]
-  · simp only [h]; rfl
+theorem fview_rootIf (o : Obj) : fview (rootIfO o) = rootIf (fview o) := by
+  unfold rootIf rootIfO
+  cases Rules.flagsFollow
+  · simp only [Bool.false_eq_true, if_false]
+    by_cases h : (!(o.isStatic && o.isInline)) = true
+    · simp only [h, if_true, fview]
+    · simp only [h, fview]; rfl
+  · rfl
+
+theorem fview_redecl (e i : Bool) (o : Obj) : fview (redeclFlags e i o) = redeclV e i (fview o) := by
+  unfold redeclV redeclFlags
+  cases Rules.flagsFollow
+  · rfl
+  · obtain ⟨sym, isFn, isDef, isSt, isInl, isInlDef, _, _, _, _, _, _, _, _, _⟩ := o
+    cases isInlDef <;> cases i <;> cases e <;> cases isSt <;> cases isDef <;> rfl
+
+theorem keepsId_rootIfO : KeepsId rootIfO := by
+  intro o
+  unfold rootIfO
+  split
+  · exact ⟨rfl, rfl⟩
+  · split <;> exact ⟨rfl, rfl⟩
+
+theorem keepsId_redecl (e i : Bool) : KeepsId (redeclFlags e i) := by
+  intro o
+  unfold redeclFlags
+  split
+  · dsimp only
+    split <;> split <;> exact ⟨rfl, rfl⟩
+  · exact ⟨rfl, rfl⟩
 
 theorem T_none_iff (gs : List Obj) (f : Name) : T gs f = none ↔ findFunc gs f = none := by
   simp [T]
@@ -381,8 +418,8 @@ theorem T_none_iff (gs : List Obj) (f : Name) : T gs f = none ↔ findFunc gs f 
 theorem T_declFunctionHead {st st' : PState} {f : Name} {s e i b : Bool}
     (h : declFunctionHead st f s e i b = .ok st') :
     T st'.globals = updT (match T st.globals f with
-      | some _ => updT (T st.globals) f (orDef b)
-      | none => fun g => if g = f then some ⟨s || (i && !e), i, false, b, []⟩ else T st.globals g) f rootIf := by
+      | some _ => updT (T st.globals) f (fun v => orDef b (redeclV e i v))
+      | none => fun g => if g = f then some (newFV s e i b) else T st.globals g) f rootIf := by
   unfold declFunctionHead at h
   split at h
   · rename_i fn hfn
@@ -395,23 +432,19 @@ theorem T_declFunctionHead {st st' : PState} {f : Name} {s e i b : Bool}
         dsimp only
         rw [hT]
         dsimp only
-        rw [T_updFunc (u := fun o => if !(o.isStatic && o.isInline) then { o with isRoot := true } else o) (v := rootIf),
-            T_updFunc (u := fun o => { o with isDefinition := o.isDefinition || b }) (v := orDef b)]
-        · exact fun _ => ⟨rfl, rfl⟩
-        · exact fun _ => rfl
-        · intro o; dsimp only; split <;> exact ⟨rfl, rfl⟩
-        · exact fview_rootIf
+        rw [T_updFunc (u := rootIfO) (v := rootIf) keepsId_rootIfO fview_rootIf,
+            T_updFunc (u := fun o => { o with isDefinition := o.isDefinition || b }) (v := orDef b) (fun _ => ⟨rfl, rfl⟩) (fun _ => rfl),
+            T_updFunc (u := redeclFlags e i) (v := redeclV e i) (keepsId_redecl e i) (fview_redecl e i)]
+        simp only [updT_updT]
   · rename_i hfn
     have hT : T st.globals f = none := by simp [T, hfn]
     cases h
     dsimp only
     rw [hT]
     dsimp only
-    rw [T_updFunc (u := fun o => if !(o.isStatic && o.isInline) then { o with isRoot := true } else o) (v := rootIf)]
-    · rw [T_cons_fn rfl rfl]
-      rfl
-    · intro o; dsimp only; split <;> exact ⟨rfl, rfl⟩
-    · exact fview_rootIf
+    rw [T_updFunc (u := rootIfO) (v := rootIf) keepsId_rootIfO fview_rootIf]
+    rw [T_cons_fn rfl rfl]
+    rfl
 
 theorem T_declStep {st st' : PState} {d : Decl} (h : declStep st d = .ok st') :
     T st'.globals = stepT (T st.globals) d := by
@@ -487,20 +520,41 @@ theorem T_declAll : ∀ (ds : List Decl) {st st' : PState}, declAll st ds = .ok 
 /-! ### layer 2: the entry of one name evolves by itself -/
 
 theorem rootIf_isStatic (v : FV) : (rootIf v).isStatic = v.isStatic := by
-  unfold rootIf; by_cases h : (!(v.isStatic && v.isInline)) = true <;> simp [h]
+  unfold rootIf; split; · rfl
+  split <;> rfl
 theorem rootIf_isInline (v : FV) : (rootIf v).isInline = v.isInline := by
-  unfold rootIf; by_cases h : (!(v.isStatic && v.isInline)) = true <;> simp [h]
+  unfold rootIf; split; · rfl
+  split <;> rfl
+theorem rootIf_isInlineDef (v : FV) : (rootIf v).isInlineDef = v.isInlineDef := by
+  unfold rootIf; split; · rfl
+  split <;> rfl
 theorem rootIf_refs (v : FV) : (rootIf v).refs = v.refs := by
-  unfold rootIf; by_cases h : (!(v.isStatic && v.isInline)) = true <;> simp [h]
+  unfold rootIf; split; · rfl
+  split <;> rfl
 theorem rootIf_isDefinition (v : FV) : (rootIf v).isDefinition = v.isDefinition := by
-  unfold rootIf; by_cases h : (!(v.isStatic && v.isInline)) = true <;> simp [h]
-theorem rootIf_isRoot (v : FV) : (rootIf v).isRoot = (v.isRoot || !(v.isStatic && v.isInline)) := by
+  unfold rootIf; split; · rfl
+  split <;> rfl
+theorem rootIf_isRoot (v : FV) : (rootIf v).isRoot = (v.isRoot || (!Rules.flagsFollow && !(v.isStatic && v.isInline))) := by
   unfold rootIf
-  by_cases h : (!(v.isStatic && v.isInline)) = true
-  · simp only [h, if_true, Bool.or_true]
-  · simp only [h]
-    simp only [Bool.not_eq_true] at h
-    simp [h]
+  cases Rules.flagsFollow
+  · simp only [Bool.false_eq_true, if_false, Bool.not_false, Bool.true_and]
+    by_cases h : (!(v.isStatic && v.isInline)) = true
+    · simp only [h, if_true, Bool.or_true]
+    · simp only [h]
+      simp only [Bool.not_eq_true] at h
+      simp [h]
+  · simp
+
+theorem redeclV_refs (e i : Bool) (v : FV) : (redeclV e i v).refs = v.refs := by
+  unfold redeclV; split
+  · dsimp only; split <;> split <;> rfl
+  · rfl
+theorem redeclV_isRoot (e i : Bool) (v : FV) : (redeclV e i v).isRoot = v.isRoot := by
+  unfold redeclV; split
+  · dsimp only; split <;> split <;> rfl
+  · rfl
+theorem redeclV_noB (h : Rules.flagsFollow = false) (e i : Bool) (v : FV) : redeclV e i v = v := by
+  unfold redeclV; simp [h]
 
 /-- what a declaration does to the table entry of `f`, given only that entry -/
 def stepFV (d : Decl) (f : Name) (cur : Option FV) : Option FV :=
@@ -508,8 +562,8 @@ def stepFV (d : Decl) (f : Name) (cur : Option FV) : Option FV :=
   | .func g _ s e i body =>
     if f = g then
       let v1 : FV := match cur with
-        | some v => orDef body.isSome v
-        | none => ⟨s || (i && !e), i, false, body.isSome, []⟩
+        | some v => orDef body.isSome (redeclV e i v)
+        | none => newFV s e i body.isSome
       let v2 := rootIf v1
       some (match body with | none => v2 | some b => addRefs (bodyFnRefs b) v2)
     else cur
@@ -566,41 +620,223 @@ def firstFlags (ds : List Decl) (f : Name) : Option (Bool × Bool) :=
     | .func g _ s e i _ => if g = f then some (s || (i && !e), i) else none
     | _ => none)
 
+/-! #### the linkage flags of one function as an automaton over its declarations -/
+
+/-- `is_static`, `is_inline`, `is_inline_def`, `is_definition` -/
+structure Flags where
+  isStatic : Bool
+  isInline : Bool
+  isInlineDef : Bool
+  isDefinition : Bool
+  deriving DecidableEq, Repr
+
+def flagsOf (v : FV) : Flags := ⟨v.isStatic, v.isInline, v.isInlineDef, v.isDefinition⟩
+
+/-- a redeclaration `[extern] [inline] f(..) [body]` -/
+def redeclF (e i b : Bool) (q : Flags) : Flags :=
+  let q0 : Flags :=
+    if Rules.flagsFollow then
+      let q1 : Flags := if q.isInlineDef && (!i || e) then { q with isInlineDef := false, isStatic := false } else q
+      if q1.isStatic && !q1.isInlineDef && i && !q1.isDefinition then { q1 with isInline := true } else q1
+    else q
+  { q0 with isDefinition := q0.isDefinition || b }
+
+def newFlags (s e i b : Bool) : Flags := ⟨s || (i && !e), i, Rules.flagsFollow && i && !s && !e, b⟩
+
+def stepFlags (d : Decl) (f : Name) (cur : Option Flags) : Option Flags :=
+  match d with
+  | .func g _ s e i body =>
+    if f = g then some (match cur with | some q => redeclF e i body.isSome q | none => newFlags s e i body.isSome) else cur
+  | .obj .. => cur
+
+def flagsAfter (ds : List Decl) (f : Name) (cur : Option Flags) : Option Flags := ds.foldl (fun cur d => stepFlags d f cur) cur
+
+/-- **the flags `parse` ends up with**: (`is_static`, `is_inline`) of `find_func(f)` after all declarations.
+    Without `Rules.flagsFollow` these are the flags of the first declaration (`firstFlags`). -/
+def fnFlags (ds : List Decl) (f : Name) : Option (Bool × Bool) := (flagsAfter ds f none).map (fun q => (q.isStatic, q.isInline))
+
+theorem flagsOf_redecl (e i b : Bool) (v : FV) : flagsOf (orDef b (redeclV e i v)) = redeclF e i b (flagsOf v) := by
+  unfold redeclV redeclF orDef flagsOf
+  cases Rules.flagsFollow
+  · rfl
+  · obtain ⟨st, inl, idf, _, df, _⟩ := v
+    cases idf <;> cases i <;> cases e <;> cases st <;> cases df <;> rfl
+
+theorem flagsOf_rootIf (v : FV) : flagsOf (rootIf v) = flagsOf v := by
+  simp [flagsOf, rootIf_isStatic, rootIf_isInline, rootIf_isInlineDef, rootIf_isDefinition]
+
+theorem flagsOf_stepFV (d : Decl) (f : Name) (cur : Option FV) : (stepFV d f cur).map flagsOf = stepFlags d f (cur.map flagsOf) := by
+  cases d with
+  | func g n s e i body =>
+    simp only [stepFV, stepFlags]
+    by_cases hfg : f = g
+    · simp only [hfg, if_true, Option.map_some, Option.some.injEq]
+      have hadd : ∀ (b : List Name) (v : FV), flagsOf (addRefs b v) = flagsOf v := fun _ _ => rfl
+      cases cur with
+      | none =>
+        cases body with
+        | none => simp only [Option.map_none, flagsOf_rootIf]; rfl
+        | some b => simp only [Option.map_none, hadd, flagsOf_rootIf]; rfl
+      | some v =>
+        cases body with
+        | none => simp only [Option.map_some, flagsOf_rootIf, flagsOf_redecl]
+        | some b => simp only [Option.map_some, hadd, flagsOf_rootIf, flagsOf_redecl]
+    · simp only [hfg, if_false]
+  | obj x s e t ty init =>
+    cases init with
+    | none => rfl
+    | some items =>
+      simp only [stepFV, stepFlags, Option.map_map]
+      congr 1
+      funext v
+      simp only [Function.comp]
+      split <;> rfl
+
+theorem flagsOf_evolve : ∀ (ds : List Decl) (f : Name) (cur : Option FV),
+    (evolve ds f cur).map flagsOf = flagsAfter ds f (cur.map flagsOf)
+  | [], _, _ => rfl
+  | d :: ds, f, cur => by
+    have := flagsOf_evolve ds f (stepFV d f cur)
+    simp only [evolve, flagsAfter, List.foldl_cons] at this ⊢
+    rw [this, flagsOf_stepFV]
+
+theorem redeclF_noB (h : Rules.flagsFollow = false) (e i b : Bool) (q : Flags) :
+    (redeclF e i b q).isStatic = q.isStatic ∧ (redeclF e i b q).isInline = q.isInline := by
+  simp [redeclF, h]
+
+theorem flagsAfter_some_noB (h : Rules.flagsFollow = false) : ∀ (ds : List Decl) (f : Name) (q : Flags),
+    ∃ q', flagsAfter ds f (some q) = some q' ∧ q'.isStatic = q.isStatic ∧ q'.isInline = q.isInline
+  | [], _, q => ⟨q, rfl, rfl, rfl⟩
+  | d :: ds, f, q => by
+    cases d with
+    | func g n s e i body =>
+      by_cases hfg : f = g
+      · obtain ⟨q', h', hs, hi⟩ := flagsAfter_some_noB h ds f (redeclF e i body.isSome q)
+        refine ⟨q', ?_, hs.trans (redeclF_noB h _ _ _ _).1, hi.trans (redeclF_noB h _ _ _ _).2⟩
+        simp only [flagsAfter, List.foldl_cons, stepFlags, hfg, if_true] at h' ⊢
+        exact h'
+      · obtain ⟨q', h', hs, hi⟩ := flagsAfter_some_noB h ds f q
+        refine ⟨q', ?_, hs, hi⟩
+        simp only [flagsAfter, List.foldl_cons, stepFlags, hfg, if_false] at h' ⊢
+        exact h'
+    | obj x s e t ty init =>
+      obtain ⟨q', h', hs, hi⟩ := flagsAfter_some_noB h ds f q
+      exact ⟨q', by simpa only [flagsAfter, List.foldl_cons, stepFlags] using h', hs, hi⟩
+
+theorem flagsAfter_some_isSome : ∀ (ds : List Decl) (f : Name) (q : Flags), (flagsAfter ds f (some q)).isSome = true
+  | [], _, _ => rfl
+  | d :: ds, f, q => by
+    cases d with
+    | func g n s e i body =>
+      by_cases hfg : f = g
+      · simp only [flagsAfter, List.foldl_cons, stepFlags, hfg, if_true]
+        exact flagsAfter_some_isSome ds g _
+      · simp only [flagsAfter, List.foldl_cons, stepFlags, hfg, if_false]
+        exact flagsAfter_some_isSome ds f q
+    | obj x s e t ty init =>
+      simp only [flagsAfter, List.foldl_cons, stepFlags]
+      exact flagsAfter_some_isSome ds f q
+
+/-- a function has flags iff it is declared -/
+theorem fnFlags_isSome : ∀ (ds : List Decl) (f : Name), (fnFlags ds f).isSome = (firstFlags ds f).isSome
+  | [], _ => rfl
+  | d :: ds, f => by
+    cases d with
+    | func g n s e i body =>
+      by_cases hfg : f = g
+      · subst hfg
+        have : (firstFlags (.func f n s e i body :: ds) f).isSome = true := by simp [firstFlags, List.findSome?]
+        rw [this]
+        simp only [fnFlags, flagsAfter, List.foldl_cons, stepFlags, if_true, Option.isSome_map]
+        exact flagsAfter_some_isSome ds f _
+      · have hne : g ≠ f := fun e => hfg e.symm
+        have h1 : firstFlags (.func g n s e i body :: ds) f = firstFlags ds f := by simp [firstFlags, List.findSome?, hne]
+        have h2 : fnFlags (.func g n s e i body :: ds) f = fnFlags ds f := by
+          simp only [fnFlags, flagsAfter, List.foldl_cons, stepFlags, hfg, if_false]
+        rw [h1, h2]; exact fnFlags_isSome ds f
+    | obj x s e t ty init =>
+      have h1 : firstFlags (.obj x s e t ty init :: ds) f = firstFlags ds f := by simp [firstFlags, List.findSome?]
+      have h2 : fnFlags (.obj x s e t ty init :: ds) f = fnFlags ds f := by
+        simp only [fnFlags, flagsAfter, List.foldl_cons, stepFlags]
+      rw [h1, h2]; exact fnFlags_isSome ds f
+
+/-- without `Rules.flagsFollow` the flags are those of the first declaration -/
+theorem fnFlags_noB (h : Rules.flagsFollow = false) : ∀ (ds : List Decl) (f : Name), fnFlags ds f = firstFlags ds f
+  | [], _ => rfl
+  | d :: ds, f => by
+    cases d with
+    | func g n s e i body =>
+      by_cases hfg : f = g
+      · subst hfg
+        have : firstFlags (.func f n s e i body :: ds) f = some (s || (i && !e), i) := by simp [firstFlags, List.findSome?]
+        rw [this]
+        obtain ⟨q', h', hs, hi⟩ := flagsAfter_some_noB h ds f (newFlags s e i body.isSome)
+        simp only [fnFlags, flagsAfter, List.foldl_cons, stepFlags, if_true] at h' ⊢
+        rw [h']
+        simp [hs, hi, newFlags]
+      · have hne : g ≠ f := fun e => hfg e.symm
+        have h1 : firstFlags (.func g n s e i body :: ds) f = firstFlags ds f := by simp [firstFlags, List.findSome?, hne]
+        have h2 : fnFlags (.func g n s e i body :: ds) f = fnFlags ds f := by
+          simp only [fnFlags, flagsAfter, List.foldl_cons, stepFlags, hfg, if_false]
+        rw [h1, h2]; exact fnFlags_noB h ds f
+    | obj x s e t ty init =>
+      have h1 : firstFlags (.obj x s e t ty init :: ds) f = firstFlags ds f := by simp [firstFlags, List.findSome?]
+      have h2 : fnFlags (.obj x s e t ty init :: ds) f = fnFlags ds f := by
+        simp only [fnFlags, flagsAfter, List.foldl_cons, stepFlags]
+      rw [h1, h2]; exact fnFlags_noB h ds f
+
+/-- the condition of the root loop on the view -/
+def effRootV (v : FV) : Bool := v.isRoot || (Rules.flagsFollow && !(v.isStatic && v.isInline))
+
+theorem effRoot_fview (o : Obj) : effRoot o = effRootV (fview o) := rfl
+
 theorem evolve_some_flags : ∀ (ds : List Decl) (f : Name) (v : FV),
-    ∃ v', evolve ds f (some v) = some v' ∧ v'.isStatic = v.isStatic ∧ v'.isInline = v.isInline ∧
+    ∃ v', evolve ds f (some v) = some v' ∧
+      (Rules.flagsFollow = false → v'.isStatic = v.isStatic ∧ v'.isInline = v.isInline) ∧
       v'.refs = v.refs ++ allBodyRefs ds f ∧
-      v'.isRoot = (v.isRoot || (declares ds f && !(v.isStatic && v.isInline)) || fileRooted ds true f)
-  | [], f, v => ⟨v, rfl, rfl, rfl, by simp [allBodyRefs], by simp [declares, fileRooted]⟩
+      v'.isRoot = (v.isRoot || (!Rules.flagsFollow && declares ds f && !(v.isStatic && v.isInline)) || fileRooted ds true f)
+  | [], f, v => ⟨v, rfl, fun _ => ⟨rfl, rfl⟩, by simp [allBodyRefs], by simp [declares, fileRooted]⟩
   | d :: ds, f, v => by
     cases d with
     | func g n s e i body =>
       by_cases hfg : f = g
       · subst hfg
         -- the entry after this declaration
-        have hstep : ∃ v1, stepFV (.func f n s e i body) f (some v) = some v1 ∧ v1.isStatic = v.isStatic ∧
-            v1.isInline = v.isInline ∧
+        have hstep : ∃ v1, stepFV (.func f n s e i body) f (some v) = some v1 ∧
+            (Rules.flagsFollow = false → v1.isStatic = v.isStatic ∧ v1.isInline = v.isInline) ∧
             v1.refs = v.refs ++ (match body with | some b => bodyFnRefs b | none => []) ∧
-            v1.isRoot = (v.isRoot || !(v.isStatic && v.isInline)) := by
+            v1.isRoot = (v.isRoot || (!Rules.flagsFollow && !(v.isStatic && v.isInline))) := by
           simp only [stepFV, if_true]
-          cases body with
-          | none =>
-            refine ⟨_, rfl, ?_, ?_, ?_, ?_⟩ <;>
-              simp [rootIf_isStatic, rootIf_isInline, rootIf_refs, rootIf_isRoot, orDef]
-          | some b =>
-            refine ⟨_, rfl, ?_, ?_, ?_, ?_⟩ <;>
-              simp [rootIf_isStatic, rootIf_isInline, rootIf_refs, rootIf_isRoot, orDef, addRefs]
-        obtain ⟨v1, h1, hs1, hi1, hr1, hroot1⟩ := hstep
-        obtain ⟨v', h', hs', hi', hr', hroot'⟩ := evolve_some_flags ds f v1
-        refine ⟨v', ?_, hs'.trans hs1, hi'.trans hi1, ?_, ?_⟩
+          cases hB : Rules.flagsFollow
+          · cases body with
+            | none =>
+              refine ⟨_, rfl, fun _ => ⟨?_, ?_⟩, ?_, ?_⟩ <;>
+                simp [rootIf_isStatic, rootIf_isInline, rootIf_refs, rootIf_isRoot, orDef, redeclV_noB hB, hB]
+            | some b =>
+              refine ⟨_, rfl, fun _ => ⟨?_, ?_⟩, ?_, ?_⟩ <;>
+                simp [rootIf_isStatic, rootIf_isInline, rootIf_refs, rootIf_isRoot, orDef, addRefs, redeclV_noB hB, hB]
+          · cases body with
+            | none =>
+              refine ⟨_, rfl, (fun h => absurd h (by decide)), ?_, ?_⟩ <;>
+                simp [rootIf_refs, rootIf_isRoot, orDef, redeclV_refs, redeclV_isRoot, hB]
+            | some b =>
+              refine ⟨_, rfl, (fun h => absurd h (by decide)), ?_, ?_⟩ <;>
+                simp [rootIf_refs, rootIf_isRoot, orDef, addRefs, redeclV_refs, redeclV_isRoot, hB]
+        obtain ⟨v1, h1, hf1, hr1, hroot1⟩ := hstep
+        obtain ⟨v', h', hf', hr', hroot'⟩ := evolve_some_flags ds f v1
+        refine ⟨v', ?_, fun hB => ⟨((hf' hB).1).trans (hf1 hB).1, ((hf' hB).2).trans (hf1 hB).2⟩, ?_, ?_⟩
         · simp only [evolve, List.foldl_cons] at h' ⊢
           rw [h1]; exact h'
         · rw [hr', hr1]
           cases body <;> simp [allBodyRefs, List.append_assoc]
-        · rw [hroot', hroot1, hs1, hi1]
+        · rw [hroot', hroot1]
           simp only [declares, List.any_cons, beq_self_eq_true, Bool.true_or, Bool.true_and, fileRooted, Bool.or_true]
-          cases v.isRoot <;> cases (!(v.isStatic && v.isInline)) <;> simp [declares]
-      · obtain ⟨v', h', hs', hi', hr', hroot'⟩ := evolve_some_flags ds f v
-        refine ⟨v', ?_, hs', hi', ?_, ?_⟩
+          cases hB : Rules.flagsFollow
+          · rw [(hf1 hB).1, (hf1 hB).2]
+            cases v.isRoot <;> cases (!(v.isStatic && v.isInline)) <;> simp [declares]
+          · simp
+      · obtain ⟨v', h', hf', hr', hroot'⟩ := evolve_some_flags ds f v
+        refine ⟨v', ?_, hf', ?_, ?_⟩
         · simp only [evolve, List.foldl_cons, stepFV, hfg, if_false] at h' ⊢
           exact h'
         · rw [hr']
@@ -612,14 +848,14 @@ theorem evolve_some_flags : ∀ (ds : List Decl) (f : Name) (v : FV),
     | obj x s e t ty init =>
       cases init with
       | none =>
-        obtain ⟨v', h', hs', hi', hr', hroot'⟩ := evolve_some_flags ds f v
-        refine ⟨v', ?_, hs', hi', ?_, ?_⟩
+        obtain ⟨v', h', hf', hr', hroot'⟩ := evolve_some_flags ds f v
+        refine ⟨v', ?_, hf', ?_, ?_⟩
         · simp only [evolve, List.foldl_cons, stepFV] at h' ⊢; exact h'
         · rw [hr']; simp [allBodyRefs]
         · rw [hroot']; simp [declares, fileRooted]
       | some items =>
         let v1 : FV := if f ∈ initFnRefs items then setRoot v else v
-        obtain ⟨v', h', hs', hi', hr', hroot'⟩ := evolve_some_flags ds f v1
+        obtain ⟨v', h', hf', hr', hroot'⟩ := evolve_some_flags ds f v1
         have hs1 : v1.isStatic = v.isStatic := by simp only [v1]; split <;> rfl
         have hi1 : v1.isInline = v.isInline := by simp only [v1]; split <;> rfl
         have hr1 : v1.refs = v.refs := by simp only [v1]; split <;> rfl
@@ -628,7 +864,7 @@ theorem evolve_some_flags : ∀ (ds : List Decl) (f : Name) (v : FV),
           by_cases hm : f ∈ initFnRefs items
           · simp [hm, setRoot]
           · simp [hm]
-        refine ⟨v', ?_, hs'.trans hs1, hi'.trans hi1, ?_, ?_⟩
+        refine ⟨v', ?_, fun hB => ⟨((hf' hB).1).trans hs1, ((hf' hB).2).trans hi1⟩, ?_, ?_⟩
         · simp only [evolve, List.foldl_cons, stepFV, Option.map_some] at h' ⊢; exact h'
         · rw [hr', hr1]; simp [allBodyRefs]
         · rw [hroot', hroot1, hs1, hi1]
@@ -638,23 +874,25 @@ theorem evolve_some_flags : ∀ (ds : List Decl) (f : Name) (v : FV),
 theorem stepFV_create (f : Name) (n : Nat) (s e i : Bool) (body : Option (List BodyItem)) :
     ∃ v1, stepFV (.func f n s e i body) f none = some v1 ∧ v1.isStatic = (s || (i && !e)) ∧ v1.isInline = i ∧
       v1.refs = (match body with | some b => bodyFnRefs b | none => []) ∧
-      v1.isRoot = !((s || (i && !e)) && i) := by
+      v1.isRoot = (!Rules.flagsFollow && !((s || (i && !e)) && i)) := by
   cases body with
   | none =>
-    exact ⟨rootIf ⟨s || (i && !e), i, false, false, []⟩, by simp [stepFV], by simp [rootIf_isStatic],
-      by simp [rootIf_isInline], by simp [rootIf_refs], by simp [rootIf_isRoot]⟩
+    exact ⟨rootIf (newFV s e i false), by simp [stepFV], by simp [rootIf_isStatic, newFV],
+      by simp [rootIf_isInline, newFV], by simp [rootIf_refs, newFV], by simp [rootIf_isRoot, newFV]⟩
   | some b =>
-    exact ⟨addRefs (bodyFnRefs b) (rootIf ⟨s || (i && !e), i, false, true, []⟩), by simp [stepFV],
-      by simp [addRefs, rootIf_isStatic], by simp [addRefs, rootIf_isInline], by simp [addRefs, rootIf_refs],
-      by simp [addRefs, rootIf_isRoot]⟩
+    exact ⟨addRefs (bodyFnRefs b) (rootIf (newFV s e i true)), by simp [stepFV],
+      by simp [addRefs, rootIf_isStatic, newFV], by simp [addRefs, rootIf_isInline, newFV], by simp [addRefs, rootIf_refs, newFV],
+      by simp [addRefs, rootIf_isRoot, newFV]⟩
 
-theorem evolve_none : ∀ (ds : List Decl) (f : Name),
+/-- the entry of `f` in terms of the flags of its first declaration (raw form) -/
+theorem evolve_none_raw : ∀ (ds : List Decl) (f : Name),
     (firstFlags ds f = none → evolve ds f none = none) ∧
-    (∀ st inl, firstFlags ds f = some (st, inl) → ∃ v', evolve ds f none = some v' ∧ v'.isStatic = st ∧
-      v'.isInline = inl ∧ v'.refs = allBodyRefs ds f ∧ v'.isRoot = (!(st && inl) || fileRooted ds false f))
+    (∀ st inl, firstFlags ds f = some (st, inl) → ∃ v', evolve ds f none = some v' ∧
+      (Rules.flagsFollow = false → v'.isStatic = st ∧ v'.isInline = inl) ∧
+      v'.refs = allBodyRefs ds f ∧ v'.isRoot = ((!Rules.flagsFollow && !(st && inl)) || fileRooted ds false f))
   | [], f => ⟨fun _ => rfl, fun _ _ h => by simp [firstFlags] at h⟩
   | d :: ds, f => by
-    have ih := evolve_none ds f
+    have ih := evolve_none_raw ds f
     cases d with
     | func g n s e i body =>
       by_cases hfg : f = g
@@ -667,15 +905,15 @@ theorem evolve_none : ∀ (ds : List Decl) (f : Name),
         simp only [Option.some.injEq, Prod.mk.injEq] at h
         obtain ⟨rfl, rfl⟩ := h
         obtain ⟨v1, hstep, hs1, hi1, hr1, hroot1⟩ := stepFV_create f n s e i body
-        obtain ⟨v', h', hs', hi', hr', hroot'⟩ := evolve_some_flags ds f v1
-        refine ⟨v', ?_, hs'.trans hs1, hi'.trans hi1, ?_, ?_⟩
+        obtain ⟨v', h', hf', hr', hroot'⟩ := evolve_some_flags ds f v1
+        refine ⟨v', ?_, fun hB => ⟨((hf' hB).1).trans hs1, ((hf' hB).2).trans hi1⟩, ?_, ?_⟩
         · simp only [evolve, List.foldl_cons] at h' ⊢
           rw [hstep]; exact h'
         · rw [hr', hr1]
           cases body <;> simp [allBodyRefs]
         · rw [hroot', hroot1, hs1, hi1]
           simp only [fileRooted, Bool.false_or, beq_self_eq_true]
-          cases (!((s || (i && !e)) && i)) <;> simp
+          cases Rules.flagsFollow <;> cases (!((s || (i && !e)) && i)) <;> simp
       · have hstep : stepFV (.func g n s e i body) f none = none := by simp [stepFV, hfg]
         have hne : g ≠ f := fun e => hfg e.symm
         have hff : firstFlags (.func g n s e i body :: ds) f = firstFlags ds f := by
@@ -701,6 +939,36 @@ theorem evolve_none : ∀ (ds : List Decl) (f : Name),
       have hev : evolve (.obj x s e t ty init :: ds) f none = evolve ds f none := by
         simp only [evolve, List.foldl_cons, hstep]
       rw [hev]; exact ih
+
+/-- **the entry of `f` after all declarations**, in terms of its final flags `fnFlags ds f`: the flags, the recorded
+    references, and the condition of the root loop (`effRootV`): not `static inline` by the final flags, or named in a
+    file-scope initializer after its declaration -/
+theorem evolve_none (ds : List Decl) (f : Name) :
+    (firstFlags ds f = none → evolve ds f none = none) ∧
+    (∀ st inl, fnFlags ds f = some (st, inl) → ∃ v', evolve ds f none = some v' ∧ v'.isStatic = st ∧
+      v'.isInline = inl ∧ v'.refs = allBodyRefs ds f ∧ effRootV v' = (!(st && inl) || fileRooted ds false f)) := by
+  obtain ⟨hnone, hsome⟩ := evolve_none_raw ds f
+  refine ⟨hnone, fun st inl hfl => ?_⟩
+  have hsm : (firstFlags ds f).isSome = true := by rw [← fnFlags_isSome, hfl]; rfl
+  cases hff : firstFlags ds f with
+  | none => rw [hff] at hsm; cases hsm
+  | some p =>
+    obtain ⟨st0, inl0⟩ := p
+    obtain ⟨v', hv', hnoB, hrefs, hroot⟩ := hsome st0 inl0 hff
+    have hfo := flagsOf_evolve ds f none
+    rw [hv'] at hfo
+    simp only [Option.map_some, Option.map_none] at hfo
+    have hfl' : some (v'.isStatic, v'.isInline) = some (st, inl) := by
+      rw [← hfl, fnFlags, ← hfo]; rfl
+    simp only [Option.some.injEq, Prod.mk.injEq] at hfl'
+    refine ⟨v', hv', hfl'.1, hfl'.2, hrefs, ?_⟩
+    unfold effRootV
+    rw [hroot, hfl'.1, hfl'.2]
+    cases hB : Rules.flagsFollow
+    · obtain ⟨h1, h2⟩ := hnoB hB
+      rw [← h1, ← h2, hfl'.1, hfl'.2]
+      simp
+    · cases (!(st && inl)) <;> simp
 
 /-- the function table after parsing `ds` from the empty state -/
 theorem T_parse {ds : List Decl} {st : PState} (h : declAll {} ds = .ok st) (f : Name) :
@@ -737,24 +1005,12 @@ theorem refsOf_eq_T (gs : List Obj) (f : Name) : refsOf gs f = ((T gs f).map (·
   cases findFunc gs f <;> rfl
 
 theorem mem_rootNames_iff_T {gs : List Obj} (hn : (fnNamesOf gs).Nodup) (f : Name) :
-    f ∈ rootNames gs ↔ ∃ v, T gs f = some v ∧ v.isRoot = true := by
+    f ∈ rootNames gs ↔ ∃ v, T gs f = some v ∧ effRootV v = true := by
   constructor
   · intro h
-    unfold rootNames at h
-    rw [List.mem_filterMap] at h
-    obtain ⟨o, ho, hh⟩ := h
-    cases hs : o.sym with
-    | anon k => simp [hs] at hh
-    | named n =>
-      simp only [hs] at hh
-      split at hh
-      · rename_i hc
-        simp only [Bool.and_eq_true] at hc
-        simp only [Option.some.injEq] at hh
-        subst hh
-        refine ⟨fview o, ?_, hc.2⟩
-        simp [T, findFunc_of_mem hn ho hc.1 hs]
-      · cases hh
+    obtain ⟨o, ho, hfun, hs, hr⟩ := of_mem_rootNames h
+    refine ⟨fview o, ?_, by rw [← effRoot_fview]; exact hr⟩
+    simp [T, findFunc_of_mem hn ho hfun hs]
   · rintro ⟨v, hv, hr⟩
     unfold T at hv
     cases hf : findFunc gs f with
@@ -764,10 +1020,6 @@ theorem mem_rootNames_iff_T {gs : List Obj} (hn : (fnNamesOf gs).Nodup) (f : Nam
       have ho := List.mem_of_find?_eq_some hf
       have hp := List.find?_some hf
       simp only [Bool.and_eq_true, beq_iff_eq] at hp
-      unfold rootNames
-      rw [List.mem_filterMap]
-      refine ⟨o, ho, ?_⟩
-      have : o.isRoot = true := by rw [← hv] at hr; exact hr
-      simp [hp.2, hp.1, this]
+      exact mem_rootNames ho hp.1 hp.2 (by rw [effRoot_fview, hv]; exact hr)
 
 end ChibiVerif.Linkage
